@@ -32,17 +32,20 @@ Fields == {"alert", "record", "for", "labels.foo", "labels.summary", "annotation
 \* ok: accepted as written; okA: accepted between ^ and $ (what "fully anchored" patterns are compiled as)
 \* pos: where a template puts the substituted text - "start" (followed by .*), "afterStar" (.* in front, end of
 \* pattern behind), "inGroup" (between parentheses)
-V(cls, text, ok) == [cls |-> cls, text |-> text, ok |-> ok, okA |-> ok, tmpl |-> "none", refs |-> {}, pos |-> "start"]
-VA(cls, text, ok, okA) == [cls |-> cls, text |-> text, ok |-> ok, okA |-> okA, tmpl |-> "none", refs |-> {}, pos |-> "start"]
-T(cls, text, ok, tmpl, refs) == [cls |-> cls, text |-> text, ok |-> ok, okA |-> ok, tmpl |-> tmpl, refs |-> refs, pos |-> "start"]
-TP(cls, text, refs, pos) == [cls |-> cls, text |-> text, ok |-> TRUE, okA |-> TRUE, tmpl |-> "ok", refs |-> refs, pos |-> pos]
+\* okG: accepted inside "^(?:" ... ")$" (what match/ignore patterns are compiled as since pint groups them)
+V(cls, text, ok) == [cls |-> cls, text |-> text, ok |-> ok, okA |-> ok, okG |-> ok, tmpl |-> "none", refs |-> {}, pos |-> "start"]
+VA(cls, text, ok, okA, okG) == [cls |-> cls, text |-> text, ok |-> ok, okA |-> okA, okG |-> okG, tmpl |-> "none", refs |-> {}, pos |-> "start"]
+T(cls, text, ok, tmpl, refs) == [cls |-> cls, text |-> text, ok |-> ok, okA |-> ok, okG |-> ok, tmpl |-> tmpl, refs |-> refs, pos |-> "start"]
+TP(cls, text, refs, pos) == [cls |-> cls, text |-> text, ok |-> TRUE, okA |-> TRUE, okG |-> TRUE, tmpl |-> "ok", refs |-> refs, pos |-> pos]
 
 \* Go regexp syntax (regexp.Compile)
 RegexpValues == {
   V("all", ".*", TRUE), V("plain", "foo.*", TRUE), V("alt", "(a|b)+\\.yml", TRUE), V("empty", "", TRUE),
   V("invParen", "(", FALSE), V("invBracket", "[a", FALSE), V("invRepeat", "a{2,1}", FALSE),
   \* not regexps on their own, but "^*$" and "^\$" are: accepted wherever validation anchors first
-  VA("invStar", "*", FALSE, TRUE), VA("invEscape", "\\", FALSE, TRUE) }
+  VA("invStar", "*", FALSE, TRUE, FALSE), VA("invEscape", "\\", FALSE, TRUE, FALSE),
+  \* an unterminated \Q quotes everything that follows: fine alone and before "$", but it swallows the ")" of a group
+  VA("openQuote", "\\Qabc", TRUE, TRUE, FALSE) }
 
 \* regexp + text/template; tmpl: none | ok | parseErr (template.Parse fails) | execErr (Execute fails on every
 \* rule, the empty one included) | execErrIfAlert (Execute fails only when $alert is non-empty)
@@ -101,7 +104,9 @@ UptimeValues == {
   V("name", "up", TRUE), V("empty", "", TRUE), V("goExpr", "a+b", TRUE), V("matchers", "up{job=\"x\"}", FALSE),
   V("unclosed", "up{", FALSE), V("twoWords", "foo bar", FALSE) }
 
-StringValues == { V("text", "some text", TRUE), V("empty", "", FALSE), V("meta", "({{ [ \\", TRUE), V("dollar", "$1 $5 ${x}", TRUE) }
+StringValues == { V("text", "some text", TRUE), V("empty", "", FALSE), V("meta", "({{ [ \\", TRUE), V("dollar", "$1 $5 ${x}", TRUE),
+                  \* link uri rewrite: what the link pattern captured is spliced into the URL that is requested
+                  V("capture", "http://127.0.0.1:1/$1", TRUE) }
 
 URIValues == { V("http", "http://127.0.0.1:1", TRUE), V("path", "http://127.0.0.1:1/prom/", TRUE), V("empty", "", FALSE),
                V("noScheme", "127.0.0.1:1", FALSE), V("badPort", "http://127.0.0.1:x", FALSE), V("space", "http://a b", FALSE) }
@@ -128,10 +133,15 @@ ValuesOf(type) ==
 -----------------------------------------------------------------------------
 (* The option table.                                                        *)
 (*  vb (validatedBy):  std     the standard validator of the type          *)
+(*                     grouped Match.validate: regexp.Compile(v) and then   *)
+(*                             the grouped anchored form matchRegex uses    *)
 (*                     none    nothing looks at the value when loading      *)
 (*     and how an empty string is treated:  emptyOk  TRUE: "not set"        *)
 (*  ub (usedBy):       MustExpand   TemplatedRegexp.MustExpand(rule).Match  *)
 (*                     strictRegex  regexp.MustCompile("^" + v + "$")       *)
+(*                     matchRegex   regexp.MustCompile("^(?:" + v + ")$")   *)
+(*                     newRequest   spliced into a URL for http.NewRequest  *)
+(*                                  (an error is reported as a problem)     *)
 (*                     dropErr      parsed again, error dropped, zero value *)
 (*                     plain        used as a string / number               *)
 (*  reach: which rules make a check (or the dispatcher) evaluate the value  *)
@@ -146,12 +156,12 @@ O(id, type, vb, emptyOk, ub, reach, mode) ==
 
 \* an ignore block needs a condition: an empty path / name / kind / for is "not set" and leaves the block empty
 MatchOptions(b) == {   \* config/match.go Match.validate / Match.IsMatch, for b = "match" | "ignore"
-  O("rule." \o b \o ".path",             "regexp",   "std",  b = "match",  "strictRegex", "always", "offline"),
-  O("rule." \o b \o ".name",             "regexp",   "std",  b = "match",  "strictRegex", "always", "offline"),
-  O("rule." \o b \o ".label.key",        "regexp",   "std",  TRUE,  "strictRegex", "always", "offline"),
-  O("rule." \o b \o ".label.value",      "regexp",   "std",  TRUE,  "strictRegex", "always", "offline"),
-  O("rule." \o b \o ".annotation.key",   "regexp",   "std",  TRUE,  "strictRegex", "always", "offline"),
-  O("rule." \o b \o ".annotation.value", "regexp",   "std",  TRUE,  "strictRegex", "always", "offline"),
+  O("rule." \o b \o ".path", "regexp", "grouped", b = "match", "matchRegex", "always", "offline"),
+  O("rule." \o b \o ".name", "regexp", "grouped", b = "match", "matchRegex", "always", "offline"),
+  O("rule." \o b \o ".label.key", "regexp", "grouped", TRUE, "matchRegex", "always", "offline"),
+  O("rule." \o b \o ".label.value", "regexp", "grouped", TRUE, "matchRegex", "always", "offline"),
+  O("rule." \o b \o ".annotation.key", "regexp", "grouped", TRUE, "matchRegex", "always", "offline"),
+  O("rule." \o b \o ".annotation.value", "regexp", "grouped", TRUE, "matchRegex", "always", "offline"),
   O("rule." \o b \o ".kind",             "kind",     "std",  b = "match",  "plain",       "always", "offline"),
   O("rule." \o b \o ".state",            "state",    "std",  FALSE, "plain",       "always", "offline"),
   O("rule." \o b \o ".command",          "command",  "none", TRUE,  "plain",       "always", "offline"),
@@ -192,7 +202,7 @@ Options ==
   O("rule.keep_firing_for.max",      "duration",   "std", TRUE,  "dropErr", "always", "offline"),
   O("rule.range_query.max",          "duration",   "nonzero", FALSE, "dropErr", "always", "online"),
   O("rule.link.timeout",             "duration",   "std", TRUE,  "dropErr", "alertFull", "online"),
-  O("rule.link.uri",                 "string",     "none", TRUE, "plain",   "alertFull", "online"),
+  O("rule.link.uri",                 "string",     "none", TRUE, "newRequest", "alertFull", "online"),
   O("rule.report.comment",           "string",     "std", FALSE, "plain",   "always", "offline"),
   O("rule.enable",                   "checkname",  "std", FALSE, "plain",   "always", "offline"),
   O("rule.disable",                  "checkname",  "std", FALSE, "plain",   "always", "offline"),
@@ -228,7 +238,8 @@ OptionById(id) == CHOOSE o \in Options : o.id = id
 -----------------------------------------------------------------------------
 (* Rule-content classes: one rule per file.                                 *)
 (*  kind   alerting | recording                                             *)
-(*  shape  full (labels foo,  annotations summary + link, for) | bare       *)
+(*  shape  full (labels foo, annotations summary + link, for,              *)
+(*         keep_firing_for) | bare | pair (the full rule twice) | broken    *)
 (*  where  which field carries the metacharacter text                       *)
 Metas == { [m |-> "paren",   text |-> "("],
            [m |-> "bracket", text |-> "[a"],
@@ -237,6 +248,9 @@ Metas == { [m |-> "paren",   text |-> "("],
            [m |-> "escape",  text |-> "\\"],
            [m |-> "tmpl",    text |-> "{{"] }
 NoMeta == [m |-> "none", text |-> ""]
+\* a link annotation whose query string holds an invalid percent escape: url.Parse accepts it, a rewrite that moves
+\* it into the path makes http.NewRequest fail
+PctMeta == [m |-> "pct", text |-> "http://127.0.0.1:1/?%zz"]
 
 \* Go regexp syntax: does substituting the text (after the literal "a" when `prefixed`: rule names are "a" + text)
 \* at the given position leave an invalid pattern?
@@ -249,21 +263,30 @@ MetaBreaks(m, pos, prefixed, raw) ==
     [] m = "escape" -> pos = "inGroup" \/ (raw /\ pos = "afterStar")
     [] OTHER        -> FALSE                           \* "{{" is literal text for the regexp
 
-MetaByName(m) == IF m = "none" THEN NoMeta ELSE CHOOSE x \in Metas : x.m = m
+MetaByName(m) == IF m = "none" THEN NoMeta ELSE IF m = "pct" THEN PctMeta ELSE CHOOSE x \in Metas : x.m = m
 ValueOf(type, cls) == CHOOSE v \in ValuesOf(type) : v.cls = cls
 
 R(kind, shape, where, meta) ==
   [kind |-> kind, shape |-> shape, where |-> where, meta |-> meta.m,
    name    |-> IF where = "name"    THEN "a" \o meta.text ELSE "a1",
    foo     |-> IF where = "foo"     THEN meta.text ELSE "bar",
-   summary |-> IF where = "summary" THEN meta.text ELSE "text"]
+   summary |-> IF where = "summary" THEN meta.text ELSE "text",
+   link    |-> IF where = "link"    THEN meta.text ELSE "http://127.0.0.1:1/doc"]
 
 Rules ==
   {R(k, s, "none", NoMeta) : k \in {"alerting", "recording"}, s \in {"full", "bare"}}
   \cup {R(k, s, "name", m) : k \in {"alerting", "recording"}, s \in {"full", "bare"}, m \in Metas}
   \cup {R(k, "full", "foo", m) : k \in {"alerting", "recording"}, m \in Metas}
   \cup {R("alerting", "full", "summary", m) : m \in Metas}
+  \* two copies of the full rule in one file: the same pattern is rendered to the same text twice
+  \cup {R(k, "pair", "none", NoMeta) : k \in {"alerting", "recording"}}
+  \cup {R(k, "pair", "foo", m) : k \in {"alerting", "recording"}, m \in Metas}
+  \* a rule that fails to parse (record: foo{job="api"}): only the error is reported, but the dispatcher still
+  \* evaluates every match/ignore block for it
+  \cup {R("recording", "broken", "none", NoMeta)}
+  \cup {R("alerting", "full", "link", PctMeta)}
 
+IsFull(r) == r.shape \in {"full", "pair"}
 RuleSig(r) == r.kind \o "/" \o r.shape \o "/" \o r.where \o "=" \o r.meta
 
 -----------------------------------------------------------------------------
@@ -273,6 +296,7 @@ Validates(o, v) ==
   ELSE CASE o.vb = "none"     -> TRUE
          [] o.vb = "std"      -> IF o.type = "tregexp" THEN v.okA ELSE v.ok   \* NewTemplatedRegexp anchors, then compiles
          [] o.vb = "anchored" -> v.okA                                        \* PromqlSeriesSettings.Validate
+         [] o.vb = "grouped"  -> v.ok /\ v.okG                                \* validateMatchRegex (F13 fix)
          [] o.vb = "nonzero"  -> v.ok /\ v.cls # "zero"          \* range_query max cannot be zero
          [] o.vb = "positive" -> v.ok /\ v.cls # "zero"          \* ci maxCommits cannot be <= 0
 
@@ -282,9 +306,9 @@ FieldBreaks(r, f, pos, led, raw) ==
   CASE f = "alert"      -> r.kind = "alerting"  /\ r.where = "name" /\ MetaBreaks(r.meta, pos, TRUE, raw)
     [] f = "record"     -> r.kind = "recording" /\ r.where = "name" /\ MetaBreaks(r.meta, pos, TRUE, raw)
     [] f = "for"        -> FALSE
-    [] f = "labels.foo" -> r.shape = "full" /\ r.where = "foo" /\ MetaBreaks(r.meta, pos, led, raw)
+    [] f = "labels.foo" -> IsFull(r) /\ r.where = "foo" /\ MetaBreaks(r.meta, pos, led, raw)
     \* alerting rules: annotations are copied into the Labels map, $annotations stays empty
-    [] f = "labels.summary"      -> r.kind = "alerting" /\ r.shape = "full" /\ r.where = "summary"
+    [] f = "labels.summary"      -> r.kind = "alerting" /\ IsFull(r) /\ r.where = "summary"
                                     /\ MetaBreaks(r.meta, pos, FALSE, raw)
     [] f = "annotations.summary" -> FALSE
 
@@ -295,16 +319,23 @@ ExpandErr(o, v, r) ==
 
 (* Impl: does a check evaluate the option's value for this rule              *)
 Reaches(o, v, r) ==
-  CASE o.reach = "always"    -> TRUE
-    [] o.reach = "full"      -> r.shape = "full"
-    [] o.reach = "alertFull" -> r.kind = "alerting" /\ r.shape = "full"
-    [] o.reach = "alerting"  -> r.kind = "alerting"
+  \* a rule that failed to parse only gets the error check: no configured check looks at it, the dispatcher
+  \* (match / ignore blocks) does
+  /\ r.shape = "broken" => o.ub \in {"matchRegex", "dropErr", "plain"}
+  /\ CASE o.reach = "always"    -> TRUE
+       [] o.reach = "full"      -> IsFull(r)
+       [] o.reach = "alertFull" -> r.kind = "alerting" /\ IsFull(r)
+       [] o.reach = "alerting"  -> r.kind = "alerting"
 
 \* the use site panics
 UseFails(o, v, r) ==
   CASE o.ub = "MustExpand"  -> Reaches(o, v, r) /\ ExpandErr(o, v, r) /\ ~MustExpandTotal
     [] o.ub = "strictRegex" -> Reaches(o, v, r) /\ ~v.okA      \* MustCompile("^v$"); unreachable after Compile(v):
                                                                \* anchoring a valid regexp keeps it valid (AnchorProbe)
+    [] o.ub = "matchRegex"  -> Reaches(o, v, r) /\ ~v.okG      \* unreachable since validate compiles the same form
+    \* rule/link: a rewritten URI that http.NewRequest refuses ("%zz") is reported as "link check failed"
+    \* (before the F14 fix the error was dropped and http.Client.Do(nil) crashed)
+    [] o.ub = "newRequest"  -> FALSE
     [] OTHER                -> FALSE
 
 Accepts(o, v)   == Validates(o, v)
@@ -326,11 +357,13 @@ Init == opt = None /\ val = None /\ rule = None /\ pc = "ChooseOption" /\ accept
 ChooseOption(o) == pc = "ChooseOption" /\ opt' = o /\ pc' = "ChooseValue" /\ UNCHANGED <<val, rule, accepted, panicked>>
 ChooseValue(v)  == pc = "ChooseValue" /\ val' = v /\ pc' = "ChooseRule" /\ UNCHANGED <<opt, rule, accepted, panicked>>
 \* values that do not look at the rule meet the four plain rules and one rule per metacharacter position
-Thin(r) == r.where = "none" \/ r.meta = "paren"
+Thin(r) == r.where = "none" \/ r.meta = "paren" \/ r.where = "link"
 ChooseRule(r)   == /\ pc = "ChooseRule"
                    /\ Full \/ val.refs # {} \/ val.tmpl = "execErrIfAlert" \/ Thin(r)
                    \* a stalling run costs EXEC its whole deadline: one rule of each kind is enough
                    /\ (opt.ub = "loopStep" /\ val.cls = "zero") => (r.where = "none" /\ r.shape = "full")
+                   \* the link annotation variant only matters to the link check
+                   /\ r.where = "link" => (Full \/ opt.id \in {"rule.link.uri", "rule.link.regex", "rule.link.timeout"})
                    /\ rule' = r /\ pc' = "Load" /\ UNCHANGED <<opt, val, accepted, panicked>>
 \* config.Load: every validate() method
 Load == /\ pc = "Load" /\ accepted' = Accepts(opt, val)
@@ -350,13 +383,16 @@ Spec == Init /\ [][Next]_vars
 Inv_C18 == accepted => ~panicked
 \* every rejected value is one the validator is documented to refuse (no accepted-but-unusable class is hidden
 \* behind a rejection): values the type's validator accepts are only rejected for being empty / zero
-Inv_RejectsOnlyInvalid == pc = "Rejected" => (~val.ok \/ val.text = "" \/ val.cls = "zero")
+Inv_RejectsOnlyInvalid == pc = "Rejected" =>
+  (~val.ok \/ val.text = "" \/ val.cls = "zero" \/ (opt.vb = "grouped" /\ ~val.okG))
 \* the assumption behind every strictRegex use: what regexp.Compile accepts stays valid between ^ and $
 Inv_AnchorKeepsValid == \A v \in RegexpValues : v.ok => v.okA
+\* ... which does not hold for the grouped form (\Q): that is why Match.validate has to compile the grouped form itself
+Inv_GroupedNeedsOwnValidation == \E v \in RegexpValues : v.ok /\ ~v.okG
 
 CaseOf(o, v, r) == [opt |-> o.id, type |-> o.type, mode |-> o.mode, cls |-> v.cls, text |-> v.text,
                     rule |-> [kind |-> r.kind, shape |-> r.shape, where |-> r.where, meta |-> r.meta,
-                              name |-> r.name, foo |-> r.foo, summary |-> r.summary]]
+                              name |-> r.name, foo |-> r.foo, summary |-> r.summary, link |-> r.link]]
 \* GEN: one case per (option, value, rule)
 EmitCase == pc # "Load" \/ PrintT(<<"CASE", ToJson(CaseOf(opt, val, rule))>>)
 =============================================================================
